@@ -6,7 +6,11 @@
 package sarama
 
 import (
+	"encoding/binary"
 	"fmt"
+	"io"
+	"net"
+	"time"
 )
 
 type verifRecords struct{ recs []*Record }
@@ -317,4 +321,137 @@ func VerifDecodeRequestHeader(buf []byte) (key, version int16, corr int32, clien
 		key, version = req.body.key(), req.body.version()
 	}
 	return key, version, req.correlationID, req.clientID, VerifDecErrID(err)
+}
+
+// VerifReceiveResult: what Broker.responseReceiver did with one response frame.
+//   Status 0   the frame header was accepted (the body was delivered, or reading the body from the connection failed)
+//          100 the receiver goroutine panicked, 102 nothing happened within the deadline
+//          otherwise VerifDecErrID of the error the receiver reported for the header (99: length out of range /
+//          correlation id mismatch)
+type VerifReceiveResult struct {
+	Status int
+	Panic  string
+	Header []byte // the header bytes as sent (correlation id of the request filled in)
+	Corr   int32
+}
+
+// VerifBrokerReceive opens a real Broker against a raw TCP server on the loopback interface, sends one request whose
+// response uses the given header version (0: ApiVersions, 1: ListPartitionReassignments) and lets the server answer
+// with frame (bytes 4..8 replaced by the request's correlation id), then close the connection.
+func VerifBrokerReceive(headerVersion int16, frame []byte) (res VerifReceiveResult) {
+	ln, err := net.Listen("tcp", "127.0.0.1:0")
+	if err != nil {
+		panic(err)
+	}
+	defer ln.Close()
+	sent := make(chan []byte, 1)
+	go func() {
+		conn, err := ln.Accept()
+		if err != nil {
+			sent <- nil
+			return
+		}
+		defer conn.Close()
+		var sz [4]byte
+		if _, err := io.ReadFull(conn, sz[:]); err != nil {
+			sent <- nil
+			return
+		}
+		req := make([]byte, binary.BigEndian.Uint32(sz[:]))
+		if _, err := io.ReadFull(conn, req); err != nil || len(req) < 8 {
+			sent <- nil
+			return
+		}
+		out := append([]byte{}, frame...)
+		if len(out) >= 8 {
+			copy(out[4:8], req[4:8])
+		}
+		_, _ = conn.Write(out)
+		sent <- out
+		time.Sleep(50 * time.Millisecond)
+	}()
+
+	panicked := make(chan interface{}, 1)
+	events := make(chan error, 4) // nil = delivered
+	oldHandler := PanicHandler
+	PanicHandler = func(v interface{}) {
+		select {
+		case panicked <- v:
+		default:
+		}
+	}
+	VerifSetObserver(func(kind string, args ...interface{}) {
+		switch kind {
+		case "broker.recv.delivered":
+			select {
+			case events <- nil:
+			default:
+			}
+		case "broker.recv.failed":
+			var e error = io.ErrUnexpectedEOF
+			if len(args) >= 3 {
+				if x, ok := args[2].(error); ok {
+					e = x
+				}
+			}
+			select {
+			case events <- e:
+			default:
+			}
+		}
+	})
+	defer func() {
+		VerifSetObserver(nil)
+		PanicHandler = oldHandler
+	}()
+
+	conf := NewConfig()
+	conf.Version = V2_4_0_0
+	conf.Net.ReadTimeout = 400 * time.Millisecond
+	conf.Net.DialTimeout = time.Second
+	broker := NewBroker(ln.Addr().String())
+	if err := broker.Open(conf); err != nil {
+		panic(err)
+	}
+	if ok, err := broker.Connected(); !ok || err != nil {
+		panic(fmt.Sprint("verif: broker not connected: ", err))
+	}
+	go func() {
+		defer func() { _ = recover() }()
+		if headerVersion >= 1 {
+			_, _ = broker.ListPartitionReassignments(&ListPartitionReassignmentsRequest{TimeoutMs: 100})
+		} else {
+			_, _ = broker.ApiVersions(&ApiVersionsRequest{})
+		}
+	}()
+	if out := <-sent; out != nil {
+		hl := int(getHeaderLength(headerVersion))
+		if len(out) >= hl {
+			res.Header = out[:hl]
+		}
+		if len(out) >= 8 {
+			res.Corr = int32(binary.BigEndian.Uint32(out[4:8]))
+		}
+	}
+	select {
+	case v := <-panicked:
+		res.Status, res.Panic = 100, fmt.Sprint(v)
+	case e := <-events:
+		switch {
+		case e == nil:
+			res.Status = 0
+		default:
+			id := VerifDecErrID(e)
+			if id == 99 {
+				if _, ok := e.(PacketDecodingError); !ok {
+					id = 0 // an I/O error while reading the body: the header had been accepted
+				}
+			}
+			res.Status = id
+		}
+	case <-time.After(3 * time.Second):
+		res.Status = 102
+	}
+	go func() { defer func() { _ = recover() }(); _ = broker.Close() }()
+	return res
 }
